@@ -249,6 +249,94 @@ class Unit:
         txt = apply_rules(txt, rules, notes, self.extra_log_macros)
         txt = self._apply_substs(txt, s, notes)
         txt = _slice_adapters(txt, notes)
+        if 'nametail' in s.args:
+            # R23: the tail expression of the function body is bound to a name: `EXPR }` -> `let ret__ = EXPR; ret__ }`
+            m2 = mask_text(txt)
+            fo, bo = _fn_sig_parts(txt, m2)
+            bc = match_close(m2, bo)
+            # start of the tail expression: after the last `;` or `}`-terminated statement at depth 0
+            depth = 0
+            last = bo + 1
+            j = bo + 1
+            while j < bc:
+                c = m2[j]
+                if c in OPEN:
+                    depth += 1
+                elif c in CLOSE:
+                    depth -= 1
+                elif c == ';' and depth == 0:
+                    last = j + 1
+                j += 1
+            tail = txt[last:bc]
+            if tail.strip():
+                txt = txt[:last] + '\n        let ret__ = ' + tail.strip() + ';\n        ret__\n    ' + txt[bc:]
+                notes.add('R23', 'tail expression bound to ret__')
+        lifted_lambdas = []
+        for (nm, arg, lines, nth) in s.subs:
+            if nm == 'lambda_lift':
+                # R20 lambda lifting: `let [mut] NAME = |PARAMS| [-> RET] { BODY };` becomes a function NAME__lifted(PARAMS, CAPS)
+                # emitted before this function; every call `NAME(args)` becomes `NAME__lifted(args, CALLCAPS)`.
+                #   @lambda_lift NAME caps=(a: &A, b: &mut B) call=(a, &mut b)      followed by the contract lines of the lifted fn
+                mo = re.match(r'^(\w+)\s+caps=\((.*?)\)\s+call=\((.*?)\)\s*$', arg)
+                if not mo:
+                    raise ExtractError('bad @lambda_lift: ' + arg)
+                lname, caps, callcaps = mo.group(1), mo.group(2), mo.group(3)
+                m2 = mask_text(txt)
+                ml = re.search(r'\blet\s+(mut\s+)?%s\s*=\s*\|' % re.escape(lname), m2)
+                if not ml:
+                    notes.add('LOST-ANCHOR', '@lambda_lift %s' % lname)
+                    continue
+                b1 = ml.end() - 1
+                j = b1 + 1
+                depth = 0
+                while j < len(m2):
+                    if m2[j] in OPEN:
+                        depth += 1
+                    elif m2[j] in CLOSE:
+                        depth -= 1
+                    elif m2[j] == '|' and depth == 0:
+                        break
+                    j += 1
+                b2 = j
+                k = _next_sig(m2, b2 + 1)
+                ret = ''
+                if m2.startswith('->', k):
+                    bo2 = m2.find('{', k)
+                    ret = txt[k:bo2].strip()
+                    k = bo2
+                if m2[k] != '{':
+                    raise ExtractError('@lambda_lift %s: closure body is not a block' % lname)
+                kc = match_close(m2, k)
+                semi = _next_sig(m2, kc + 1)
+                if m2[semi] != ';':
+                    raise ExtractError('@lambda_lift %s: closure is not a let-bound statement' % lname)
+                lparams = txt[b1 + 1:b2].strip()
+                lbody = txt[k:kc + 1]
+                txt = txt[:ml.start()] + txt[semi + 1:]
+                # calls
+                txt = re.sub(r'\b%s\(' % re.escape(lname), '%s__lifted(' % lname, txt)
+                # append captured arguments to each call
+                out = []
+                pos0 = 0
+                while True:
+                    m3 = mask_text(txt)
+                    mc = re.compile(r'\b%s__lifted\(' % re.escape(lname)).search(m3, pos0)
+                    if not mc:
+                        break
+                    op = mc.end() - 1
+                    cl = match_close(m3, op)
+                    inner = txt[op + 1:cl].strip()
+                    newcall = '%s__lifted(%s%s%s)' % (lname, inner, ', ' if inner else '', callcaps)
+                    txt = txt[:mc.start()] + newcall + txt[cl + 1:]
+                    pos0 = mc.start() + len(newcall)
+                contract = '\n'.join(lines)
+                sig_ret = ret
+                mret = re.search(r'@ret\s+(\w+)', contract)
+                if mret and ret.startswith('->'):
+                    sig_ret = '-> (%s: %s)' % (mret.group(1), ret[2:].strip())
+                    contract = re.sub(r'@ret\s+\w+\s*\n?', '', contract)
+                lifted_lambdas.append('fn %s__lifted(%s, %s) %s\n%s\n%s\n' % (lname, lparams, caps, sig_ret, contract, lbody))
+                notes.add('R20', 'closure `%s` lifted to fn %s__lifted(.., %s); calls pass (%s)' % (lname, lname, caps, callcaps))
         for (nm, arg, lines, nth) in s.subs:
             if nm == 'droptail':
                 # the function is under contract only up to (and including) the statement that contains the anchor: the rest
@@ -284,6 +372,10 @@ class Unit:
         if canary:
             # a renamed COPY of the function with `ensures false` appended: it must fail to verify
             txt = re.sub(r'\bfn\s+' + re.escape(fn) + r'\b', 'fn ' + fn + '__canary', txt, count=1)
+        if lifted_lambdas and header is None and not canary:
+            txt = '\n'.join(lifted_lambdas) + '\n' + txt
+        elif lifted_lambdas and header is not None:
+            raise ExtractError('@lambda_lift inside an impl method is not supported')
         if header is not None:
             h = re.sub(r'\s+', ' ', header.strip())
             if trait and 'inherent' in s.args and not canary:
@@ -735,7 +827,7 @@ def weave(txt, s, notes, canary=False):
             attr_lines.append((arg + ' ' + body).strip())
         elif name == 'top':
             inserts.append((body_open + 1, '\n' + body + '\n'))
-        elif name in ('subst', 'droptail'):
+        elif name in ('subst', 'droptail', 'lambda_lift'):
             pass
         else:
             raise ExtractError('unknown directive @%s' % name)
